@@ -112,9 +112,11 @@ example : (Entry.viaClosedConst (some .f64) .f64).stored refP ⟨false, false, f
 
 /-- The hypothesis "no float64 is handed in" cannot be dropped: the unconditional statement is
     FALSE (a float64 aval reaching `add_input_for_invar`, or a float64 array reaching
-    `bind_const_for_var`, is typed DOUBLE with the flag off).  On the real code the hypothesis is
-    violated by plugin abstract-evaluation rules that promote (float32, Python int) with numpy's
-    lattice (known findings F-C09-intpromote-*) and under a thread-local x64 override. -/
+    `bind_const_for_var`, is typed DOUBLE with the flag off).  On the real code the hypothesis
+    used to be violated by plugin abstract-evaluation rules that promoted (float32, Python int)
+    with numpy's lattice (F-C09-intpromote-*, fixed by /repo commit 8efd0fe; the harness keeps
+    those programs as a permanent corpus) and is still violated under a thread-local x64
+    override (known finding F-C09-x64-override-double). -/
 theorem single_no_double_unconditional_refuted :
     ¬ (∀ (c : Ctx) (e : Entry), c.flag = false →
         isDouble (e.code refP c) = false ∧ e.stored refP c ≠ some .f64) := by
